@@ -292,6 +292,8 @@ class Interp:
             return BoundMethod(raw.__func__, cls)
         if isinstance(raw, types.FunctionType):
             return BoundMethod(raw, obj)
+        if raw is object.__init__:
+            return lambda *a, **k: None  # super().__init__() reaching object: no effect
         return raw
 
     def get_attr(self, obj, name, node=None):
